@@ -29,5 +29,6 @@ size_t strlcpy(char *dst, const char *src, size_t size) {
 
 	*dst = '\0';
 
-	return s - src;
+	/* the result is the length of src, also when it did not fit */
+	return (s - src) + strlen(s);
 }
